@@ -6,6 +6,7 @@ import types
 from enum import Enum
 
 from .. import fmt, gen, specdata, tlc, trace, projection
+from ..common import MachineryError
 from . import c06
 
 EVIDENCE = dict(
